@@ -212,7 +212,92 @@ def flowset_repetition_rule(ctx, prog, an, rule, label="v9"):
         for d in ds:
             edges = finishing_edges(an, b, d)
             bad = [(u, v, k, w) for (u, v, k, w) in edges if k not in allowed]
+            _count_bound(ctx, prog, an, rule, p, b, d, label)
             ctx.ob(rule, p, "flowset-repetition-ends:%s" % label, not bad,
                    ("the flowset repetition can finish with Ok, leaving input undecoded, under a condition that is not `input empty / count reached`: %s"
                     % [(k, w, b.line(u)) for (u, v, k, w) in bad]) if bad else
                    "ways to finish without decoding the rest: %s" % sorted(set(k for (_, _, k, _) in edges)), site=b.line(d))
+
+
+def _plain_count(e):
+    """The announced count itself: a parameter or a `count` field, through widening conversions only."""
+    e = peel(e, widen=True)
+    while e[0] == "call" and e[2] is not None and e[2].nsyn in ("std::convert::From::from", "std::convert::Into::into") and len(e[3]) == 1:
+        e = peel(e[3][0], widen=True)
+    if e[0] == "arg":
+        return ("arg", e[1])
+    if e[0] == "field" and e[2] in ("count", "record_count", "flowset_count"):
+        return ("field", e[2])
+    return None
+
+
+def _resolve_capture(prog, an, cb, e):
+    """A value a closure captured (`*(*env).i`) seen from where the closure was created."""
+    import re as _re
+    x = peel(e, widen=True)
+    while x[0] in ("deref", "ref"):
+        x = peel(x[1], widen=True)
+    if not (x[0] == "tfield" and cb.kind == "Closure"):
+        return e
+    base = peel(x[1])
+    while base[0] in ("deref", "ref"):
+        base = peel(base[1])
+    if base != ("arg", 1):
+        return e
+    parent = prog.bodies.get(_re.sub(r"::\{closure#\d+\}$", "", cb.path))
+    if parent is None:
+        return e
+    for blk, i, st in parent.stmts():
+        if st["k"] == "assign" and st["rv"]["k"] == "aggregate" and st["rv"].get("agg") == "closure" and st["rv"].get("closure") == cb.path and len(st["rv"]["ops"]) > x[2]:
+            v = an.op(parent, st["rv"]["ops"][x[2]])
+            v = peel(v, widen=True)
+            while v[0] in ("deref", "ref"):
+                v = peel(v[1], widen=True)
+            return v
+    return e
+
+
+def _count_bound(ctx, prog, an, rule, p, b, dblk, label):
+    """What bounds the repetition is the count the header announced, unmodified: `0..count` (or `len() < count`) where
+    count is a parameter that every caller binds to a `count` field, or that field itself."""
+    import re as _re
+    owner_p = _re.sub(r"(::\{closure#\d+\})+$", "", p)
+    owner = b if owner_p == p else (classifier_inlined(prog, owner_p) or prog.bodies.get(owner_p))
+    if owner is None:
+        return
+    sl = an.slicer(owner)
+    bounds = []
+    for blk, i, st in owner.stmts():
+        if st["k"] == "assign" and st["rv"]["k"] == "aggregate" and st["rv"].get("agg") == "adt" and str(st["rv"].get("adt", "")).endswith("ops::Range") and len(st["rv"].get("ops", [])) == 2:
+            lo, hi = an.op(owner, st["rv"]["ops"][0]), an.op(owner, st["rv"]["ops"][1])
+            bounds.append((blk, "0..n", const_eval(peel(lo, widen=True)) == {0}, hi))
+    if owner is b:
+        for (u, v, k, w) in finishing_edges(an, b, dblk):
+            if k == "count-reached":
+                e, _ = strip_not(an.op(b, b.term(u)["op"]))
+                e = peel(e)
+                if e[0] == "binop":
+                    for side in (e[2], e[3]):
+                        x = peel(side, widen=True)
+                        if not (x[0] == "call" and x[2] is not None and x[2].npath.endswith("::len")):
+                            bounds.append((u, "len() vs n", True, side))
+    for blk, how, lo_ok, hi in bounds:
+        pc = _plain_count(hi)
+        ok = lo_ok and pc is not None
+        why = "the repetition is bounded by %s = %s" % (how, canon(peel(hi, widen=True))[:160])
+        if ok and pc[0] == "arg":
+            # every caller binds that parameter to the announced count
+            k = pc[1]
+            binds = []
+            for cp, cb in prog.bodies.items():
+                if cb.derived and False:
+                    continue
+                for cblk, t, c in cb.calls():
+                    if c is not None and c.local and c.path == owner_p and len(t["args"]) >= k:
+                        binds.append((cp, _plain_count(_resolve_capture(prog, an, cb, an.op(cb, t["args"][k - 1])))))
+            bad = [cp for cp, x in binds if x is None or x[0] != "field"]
+            ok = bool(binds) and not bad
+            why += "; parameter %d is bound to the header's count by %d caller(s)%s" % (k, len(binds), (", but not by %s" % bad) if bad else "")
+        elif not ok:
+            why += " - not the announced count itself (a parameter or `count` field through widening conversions only)"
+        ctx.ob(rule, owner_p, "repetition-bound-is-the-announced-count:%s" % label, ok, why, site=owner.line(blk))
